@@ -640,7 +640,8 @@ static void describeModel(const libcellml::ModelPtr &m, const char *label)
     o << " {\"label\":\"" << label << "\",\"units\":[";
     for (size_t i = 0; i < m->unitsCount(); ++i) {
         auto u = m->units(i);
-        o << (i ? "," : "") << "{\"name\":" << jstr(u->name()) << ",\"import\":" << (u->isImport() ? 1 : 0) << ",\"refs\":[";
+        o << (i ? "," : "") << "{\"name\":" << jstr(u->name()) << ",\"import\":" << (u->isImport() ? 1 : 0)
+          << ",\"importref\":" << jstr(u->isImport() ? u->importReference() : std::string()) << ",\"refs\":[";
         for (size_t k = 0; k < u->unitCount(); ++k) {
             o << (k ? "," : "") << jstr(u->unitAttributeReference(k));
         }
